@@ -539,23 +539,24 @@ def assist_import_proposals(run):
         f2 = loader.load(MOD, 'assist', stubs=dict(
             Source=lambda source, filename, position: source, EvalCtx=lambda project: object(),
             list_packages=lambda project, root, filename: asked.append(root) or ['<listing of %s>' % root], print_dump=lambda tree, *a_, **k_: None))
-        for text in ('', 'o', 'os.pa', 'os.', 'os.path.jo', '.', '..', '.x', '..x', '.a.', '.a.b', '..a.b.', '..a.b.c', '...', '...pkg.'):
+        for text, ws in [(t_, ' ') for t_ in ('', 'o', 'os.pa', 'os.', 'os.path.jo', '.', '..', '.x', '..x', '.a.', '.a.b', '..a.b.', '..a.b.c', '...', '...pkg.')] + \
+                [('os.pa', '  '), ('os.pa', ' \t'), ('.a.b', ' \t '), ('..', '   '), ('os.', ' \t\t')]:
             level = len(text) - len(text.lstrip('.'))
             rest = text[level:]
             want_pkg, want_prefix = ('.' * level + rest.rsplit('.', 1)[0], rest.rsplit('.', 1)[1]) if '.' in rest else ('.' * level, rest)
 
             class Src2(object):
-                lines = ['    from ' + text]
+                lines = ['    from' + ws + text]
 
                 @property
                 def tree(self):
                     raise SyntaxError('an unfinished import does not parse')
             del asked[:]
             try:
-                r = f2(Proj(), Src2(), (1, 9 + len(text)), 'f.py')
+                r = f2(Proj(), Src2(), (1, 8 + len(ws) + len(text)), 'f.py')
             except Exception as e:
                 r = ('<raised %s>' % type(e).__name__, None)
-            prove('from-branch-lists-the-package-left-of-the-last-dot[from %s]' % (text or '<nothing>'), asked == [want_pkg] and r[0] == want_prefix,
+            prove('from-branch-lists-the-package-left-of-the-last-dot[from%s%s]' % (ws.replace('\t', '<tab>'), text or '<nothing>'), asked == [want_pkg] and r[0] == want_prefix,
                   clause='children of %r, prefix %r [asked %r, prefix %r]' % (want_pkg, want_prefix, asked, r[0]), path=path)
         # assistant.list_packages itself
         lp = loader.load(MOD, 'list_packages', stubs=dict(sorted=sorted_stub))
